@@ -247,6 +247,23 @@ func runHist(cfg *config) error {
 			}
 		}
 		sig["undo_needed"] = undo
+		// does a client undo/redo after it split a tree element? (upstream: a split has no proper reverse)
+		splitBy, splitUndo := map[int]bool{}, false
+		for _, st := range small.Steps {
+			switch st.Op {
+			case "U":
+				for _, e := range st.Edits {
+					if e.K == "xspl" {
+						splitBy[st.C] = true
+					}
+				}
+			case "Z", "Y":
+				if splitBy[st.C] {
+					splitUndo = true
+				}
+			}
+		}
+		sig["tree_split_undo"] = splitUndo
 		// is somebody else editing in a history where one client undoes/redoes?
 		undoers, editors := map[int]bool{}, map[int]bool{}
 		for _, st := range small.Steps {
